@@ -107,6 +107,9 @@ def _tree(draw, D, ctxk, depth):
 
 @st.composite
 def _case(draw):
+    if draw(st.integers(0, 24)) == 0:
+        return {"kind": "named_inverse", "which": draw(st.sampled_from(["logit", "logit", "cauchy"])), "temp": draw(st.sampled_from([1.0, 0.5, 2.0])),
+                "eps": draw(st.sampled_from([1e-6, 1e-3, 1e-2, 0.1])), "seed": draw(st.integers(0, 10 ** 6))}
     D = draw(st.integers(2, 6))
     ctxk = draw(st.sampled_from([None, 2]))
     tree = draw(_tree(D, ctxk, draw(st.integers(1, 3))))
@@ -292,6 +295,32 @@ def run_case(case):
     # under the float32 default and converted with .double() (accumulators created with torch.zeros(...) would stay float32)
     twin = case["kind"] == "program" and case.get("double_twin")
     with dtype_mode(not twin):
+        if case["kind"] == "named_inverse":
+            # the library's own InverseTransform subclasses: Logit(t, eps) is Sigmoid(t, eps) with the directions swapped,
+            # CauchyCDFInverse is CauchyCDF swapped - bit for bit, for every constructor argument, tails [0, eps) included
+            from nflows.transforms import nonlinearities as NL
+            g_ = torch.Generator().manual_seed(case["seed"])
+            u = torch.rand(6, 3, generator=g_, dtype=torch.float64)
+            u[0, 0], u[0, 1], u[1, 0], u[1, 1] = 0.0, 1.0, case["eps"] / 3, 1 - case["eps"] / 3
+            x = torch.randn(6, 3, generator=g_, dtype=torch.float64) * 4
+            if case["which"] == "logit":
+                wrapped, plain = NL.Logit(temperature=case["temp"], eps=case["eps"]), NL.Sigmoid(temperature=case["temp"], eps=case["eps"])
+            else:
+                wrapped, plain = NL.CauchyCDFInverse(), NL.CauchyCDF()
+                u = u.clamp(1e-3, 1 - 1e-3)
+            res.labels += ["named_inverse:" + case["which"]]
+            res.nontrivial = True
+            same = lambda a_, b_: a_.shape == b_.shape and bool(torch.allclose(a_, b_, rtol=0, atol=0, equal_nan=True))  # noqa
+            with torch.no_grad():
+                a1, l1 = wrapped(u)
+                a2, l2 = plain.inverse(u)
+                c1, m1 = wrapped.inverse(x)
+                c2, m2 = plain(x)
+            if not (same(a1, a2) and same(l1, l2) and same(c1, c2) and same(m1, m2)):
+                res.fail("inverse_wrapper_not_exact_swap", type(wrapped).__name__, "%s(%s) is not its wrapped transform with forward/inverse swapped "
+                         "(max output difference %g)" % (type(wrapped).__name__, {k: case[k] for k in ("temp", "eps")} if case["which"] == "logit" else "",
+                                                         float((a1 - a2).abs().nan_to_num().max())))
+            return res
         if case["kind"] == "routing":
             res.labels += ["routing", "stages:%d" % case["stages"], "split_dim:%d" % case["split_dim"], "ndim:%d" % len(case["shape"])]
             _routing(case, res)
